@@ -16,7 +16,7 @@ pub fn def() -> PropDef {
         run_unit,
         replay,
         required_probes: &["SetScale_UpU64", "SetScale_UpBig", "TenPow_Lt20", "TenPow_Lt590", "TenPow_Recursive"],
-        rule: "exhaustive small scope: every pair na*10^-sa, nb*10^-sb with |na| <= 150, 1 <= |nb| <= 60, scales 0..2; then seeded pairs (a, b != 0) of 1..2000 digits with scale gaps 0..10^4 in both directions (19, 20, 255..257, 589..591 included), both signs, |a| < = > |b|, a an exact multiple of b, value-equal representations, equal digits at different scales; each pair through the 4 ownership forms and %=, judged against the aligned truncated integer remainder: exact value, |r| < |b|, r = 0 or sign(r) = sign(a), r(a,b) = r(a,-b), a = b*trunc(a/b) + r in the model, all five forms equal; zero divisors (any scale, any numerator including zero and operands much shorter than the scale gap) must panic in all five forms. distinct = distinct (a, b); non-trivial = both non-zero and the model remainder is non-zero",
+        rule: "exhaustive small scope: every pair na*10^-sa, nb*10^-sb with |na| <= 150, 1 <= |nb| <= 60, scales 0..2; exhaustive machine-word boundaries: aligned integers +-(2^k + d) against +-1, +-2, +-3, +-7, +-10 and +-(2^j + e) for k, j in {7..192 word sizes}, d, e in -1..=1, both orders; small-quotient pairs a = b*q + tail written 0..1990 digits finer than b (q in 0..1000, mostly 0..2; b also 1, 2, 2^k, 10^k: the `x % 1` idiom; tails zero, tiny, just below |b|, short, random); then seeded pairs (a, b != 0) of 1..2000 digits with scale gaps 0..10^4 in both directions (19, 20, 255..257, 589..591 included), both signs, |a| < = > |b|, a an exact multiple of b, value-equal representations, equal digits at different scales; each pair through the 4 ownership forms and %=, judged against the aligned truncated integer remainder: exact value, |r| < |b|, r = 0 or sign(r) = sign(a), r(a,b) = r(a,-b), a = b*trunc(a/b) + r in the model, all five forms equal; zero divisors (any scale, any numerator including zero and operands much shorter than the scale gap) must panic in all five forms. distinct = distinct (a, b); non-trivial = both non-zero and the model remainder is non-zero",
     }
 }
 
@@ -26,12 +26,16 @@ fn plan(tier: Tier) -> Vec<Unit> {
             let mut v = crate::util::split_budget("pairs", 500_000, 5_000);
             v.extend(crate::util::split_budget("small", 301, 7));
             v.extend(crate::util::split_budget("zero", 20_000, 1_000));
+            v.extend(crate::util::split_budget("quot", 60_000, 2_000));
+            v.extend(crate::util::split_budget("words", WORDS.len() as u64 * 6, 6));
             v
         }
         Tier::Thorough => {
             let mut v = crate::util::split_budget("pairs", 60_000_000, 20_000);
             v.extend(crate::util::split_budget("small", 301, 7));
             v.extend(crate::util::split_budget("zero", 1_000_000, 5_000));
+            v.extend(crate::util::split_budget("quot", 6_000_000, 10_000));
+            v.extend(crate::util::split_budget("words", WORDS.len() as u64 * 6, 6));
             v
         }
         Tier::Miri => {
@@ -40,6 +44,67 @@ fn plan(tier: Tier) -> Vec<Unit> {
             v
         }
     }
+}
+
+/// Exponents k of the machine-word boundaries 2^k the "words" units walk
+const WORDS: [u32; 14] = [7, 8, 15, 16, 31, 32, 52, 53, 63, 64, 96, 127, 128, 192];
+
+/// 2^k + d, signed
+fn word(k: u32, d: i64, neg: bool) -> BigInt {
+    let v = (BigInt::one() << (k as usize)) + d;
+    if neg { -v } else { v }
+}
+
+/// Small-quotient pairs: a = b*q + tail written `gap` digits finer than b, so that |a/b| lies in [q, q+1) for a
+/// small q and the dividend is (much) longer than the divisor: the `x % 1` fractional-part idiom, exact multiples
+/// with long zero tails, dividends barely above / below the shifted divisor.
+fn gen_quot(r: &mut Rng, i: u64) -> (Dec, Dec) {
+    let b = match r.below(4) {
+        0 => {
+            // the idiomatic divisors: 1, 2, 4, 5, 8, 10, 2^k, 10^k, also written with trailing zeros
+            let n = match r.below(4) {
+                0 => BigInt::from(*r.pick(&[1i64, 1, 1, 2, 2, 4, 5, 8, 10, 16, 25, 32, 64, 100, 128, 1024])),
+                1 => BigInt::one() << (r.below(200) as usize),
+                2 => pow10(r.below(40)),
+                _ => (BigInt::one() << (r.below(64) as usize)) + r.range(0, 3),
+            };
+            Dec::new(n, r.range(-3, 6))
+        }
+        1 => gen::dec_nonzero(r, 30, 40),
+        _ => gen::dec_nonzero(r, if i % 10 == 0 { 600 } else { 120 }, 300),
+    };
+    let bn = b.n.abs();
+    let q = match r.below(8) { 0 => 0, 1 | 2 | 3 => 1, 4 => 2, 5 => r.range(3, 10), 6 => r.range(10, 1000), _ => r.range(1, 3) };
+    // how much finer the dividend is: the whole stated range, long gaps favoured
+    let db = gen::ndigits(&bn) as i64;
+    let gmax = (1999 - db - 3).max(1);
+    let g = match r.below(4) { 0 => gen::gap(r, gmax), 1 => r.range(gmax / 2, gmax), _ => r.range(0, gmax) };
+    let unit = &bn * pow10(g as u64); // |b| in units of the dividend's last place
+    let tail = match r.below(6) {
+        0 => BigInt::zero(),
+        1 => BigInt::from(r.range(1, 99)),
+        2 => &unit - r.range(1, 99),
+        3 => {
+            // a short tail: many zeros after the quotient digits
+            let l = 1 + r.below((g as u64).max(1)) as usize;
+            gen::uint_nonzero(r, l.min(1990))
+        }
+        _ => {
+            let l = (db + g) as usize;
+            gen::digit_string(r, l.max(1)).parse::<BigInt>().unwrap()
+        }
+    };
+    let tail = if unit.is_zero() { BigInt::zero() } else { tail % &unit };
+    let tail = if tail.is_negative() { -tail } else { tail };
+    let mut an = &unit * q + tail;
+    if r.bool() { an = -an; }
+    let a = Dec::new(an, b.s + g);
+    let b = if r.chance(1, 3) { b.neg() } else { b };
+    if r.chance(1, 8) {
+        // the mirror image: the divisor is the finer operand (the dividend gets the short spelling)
+        return (b.clone(), if a.is_zero() { Dec::new(BigInt::one(), a.s) } else { a });
+    }
+    (a, b)
 }
 
 fn gen_pair(r: &mut Rng, i: u64) -> (Dec, Dec) {
@@ -100,6 +165,43 @@ fn run_unit(unit: &Unit, r: &mut Rng, ctx: &mut Ctx) {
             }
             if unit.start == 0 {
                 ctx.exhaustive_notes.push("C09 small scope: every a = na*10^-sa, b = nb*10^-sb with |na| <= 150, 1 <= |nb| <= 60, scales 0..2 (325 080 pairs x 10 remainder calls)".into());
+            }
+        }
+        "quot" => {
+            for i in 0..unit.count {
+                let (a, b) = gen_quot(r, unit.start + i);
+                if b.is_zero() { continue; }
+                let case = Case::new("pair").push(a.tok()).push(b.tok());
+                check_case(&case, ctx);
+            }
+        }
+        "words" => {
+            // exhaustive: aligned integers (x, y) with x in {+-(2^k + d)} for the word boundaries k, d in -1..=1, and
+            // y in {+-1, +-2, +-3, +-7, +-10} and {+-(2^j + e)}; at equal scales, and with x spelt one digit coarser
+            for idx in unit.start..unit.start + unit.count {
+                let k = WORDS[(idx / 6) as usize % WORDS.len()];
+                let d = (idx % 3) as i64 - 1;
+                let neg = (idx / 3) % 2 == 1;
+                let x = word(k, d, neg);
+                let mut ys: Vec<BigInt> = vec![];
+                for v in [1i64, 2, 3, 7, 10] { ys.push(BigInt::from(v)); ys.push(BigInt::from(-v)); }
+                for j in WORDS { for e in -1i64..=1 { ys.push(word(j, e, false)); ys.push(word(j, e, true)); } }
+                for y in &ys {
+                    for (sa, sb) in [(0i64, 0i64), (3, 3), (-2, -2), (18, 18)] {
+                        for (a, b) in [(Dec::new(x.clone(), sa), Dec::new(y.clone(), sb)), (Dec::new(y.clone(), sb), Dec::new(x.clone(), sa))] {
+                            let case = Case::new("pair").push(a.tok()).push(b.tok());
+                            check_case(&case, ctx);
+                        }
+                    }
+                    // the same aligned pair reached through alignment: y spelt with one trailing zero less
+                    let case = Case::new("pair").push(Dec::new(&x * 10, 4).tok()).push(Dec::new(y.clone(), 3).tok());
+                    check_case(&case, ctx);
+                    let case = Case::new("pair").push(Dec::new(x.clone(), 3).tok()).push(Dec::new(y * 10, 4).tok());
+                    check_case(&case, ctx);
+                }
+            }
+            if unit.start == 0 {
+                ctx.exhaustive_notes.push("C09 word boundaries: every aligned pair (x, y), x = +-(2^k + d), y in {+-1, +-2, +-3, +-7, +-10} or +-(2^j + e), k, j in {7,8,15,16,31,32,52,53,63,64,96,127,128,192}, d, e in -1..=1, both orders, 4 common scales and 2 aligned spellings".into());
             }
         }
         "zero" => {
